@@ -22,7 +22,7 @@ def _snap(d):
     return out
 
 
-def run_cli(binp, files, args, cwd_files=None, stdin=None, env=None, timeout=60):
+def run_cli(binp, files, args, cwd_files=None, stdin=None, env=None, timeout=60, cwd_rel=None):
     """files: {relpath: content}. Returns dict(rc, out, err, before, after)."""
     d = tempfile.mkdtemp(dir=common.SCRATCH, prefix="cli.")
     try:
@@ -43,7 +43,7 @@ def run_cli(binp, files, args, cwd_files=None, stdin=None, env=None, timeout=60)
         e["XDG_CONFIG_HOME"] = os.path.join(d, ".xdg")
         if env:
             e.update(env)
-        r = subprocess.run([binp] + list(args), cwd=d, input=(stdin.encode() if isinstance(stdin, str) else stdin),
+        r = subprocess.run([binp] + list(args), cwd=os.path.join(d, cwd_rel) if cwd_rel else d, input=(stdin.encode() if isinstance(stdin, str) else stdin),
                            capture_output=True, timeout=timeout, env=e)
         after = _snap(d)
         return {"rc": r.returncode, "out": r.stdout.decode("utf-8", "replace"), "err": r.stderr.decode("utf-8", "replace"),
